@@ -414,3 +414,68 @@ func c10Entities(c *vrep.Ctx) {
 		}
 	})
 }
+
+// c10_runes: EVERY code point U+0000..U+2FFF, the last ones of the BMP and of Unicode, the
+// surrogate range as raw bytes, and every single byte 0x80..0xFF, each alone, at the start, in the
+// middle and at the end of a word, through every entry point (tables indexed by a character are
+// sized by someone's idea of the character's range).
+func init() { vRegister("c10_runes", c10Runes) }
+
+func c10Runes(c *vrep.Ctx) {
+	var units []string
+	for r := rune(0); r < 0x3000; r++ {
+		units = append(units, string(r))
+	}
+	for _, r := range []rune{0xFFFC, 0xFFFD, 0xFFFE, 0xFFFF, 0x10000, 0x1F600, 0xE000, 0xF8FF, 0x10FFFE, 0x10FFFF} {
+		units = append(units, string(r))
+	}
+	for b := 0x80; b <= 0xFF; b++ {
+		units = append(units, string([]byte{byte(b)}))
+	}
+	units = append(units, "\xed\xa0\x80", "\xed\xbf\xbf", "\xf4\x90\x80\x80", "\xc0\x80")
+	places := []struct{ name, pre, post string }{{"alone", "aa ", " bb"}, {"start of a word", "aa ", "bc bb"}, {"inside a word", "aa b", "c bb"}, {"end of a word", "aa bc", " bb"}, {"whole input", "", ""}}
+	cl := c10Corpus(3, 0.8)
+	c.R.Rule = fmt.Sprintf("%d characters (every code point U+0000..U+2FFF, the ends of the planes, private use, every byte 0x80..0xFF alone, encoded surrogates, overlong and beyond-range sequences) x %d places x {Match, MatchFrom, Normalize, AddContent-then-Match}: no panic, no error, the caller's memory unchanged; non-trivial = all cases", len(units), len(places))
+	c.Bound("characters", len(units))
+	body := func(r *vx.Run) {
+		u := units[r.Choose(len(units), "character")]
+		pl := places[r.Choose(len(places), "place")]
+		in := vSpare([]byte(pl.pre + u + pl.post))
+		keep := append([]byte(nil), in[:cap(in)]...)
+		var msgs []string
+		for ai, api := range []string{"Match", "MatchFrom", "Normalize", "AddContent+Match"} {
+			msg := vPanics(func() {
+				switch ai {
+				case 0:
+					cl.Match(in)
+				case 1:
+					if _, err := cl.MatchFrom(bytes.NewReader(in)); err != nil {
+						panic("unexpected error " + err.Error())
+					}
+				case 2:
+					cl.Normalize(in)
+				case 3:
+					fresh := c10Corpus(2, 0.8)
+					fresh.AddContent("License", "Added", "license.txt", in)
+					fresh.Match(in)
+				}
+			})
+			c.R.Evaluations++
+			c.R.Nontrivial++
+			if msg != "" {
+				msgs = append(msgs, fmt.Sprintf("%s: panic: %s", api, msg))
+			}
+		}
+		if !bytes.Equal(in[:cap(in)], keep) {
+			msgs = append(msgs, "the caller's memory (the slice or the spare capacity behind it) was modified")
+		}
+		r.Note = map[string]interface{}{"id": fmt.Sprintf("%+q %s", u, pl.name), "msgs": msgs}
+	}
+	c.Run(vSplitExplorer(c, 0, 1), body, func(r *vx.Run) {
+		c.R.Evaluations--
+		if ms := r.Note["msgs"].([]string); len(ms) > 0 {
+			id := r.Note["id"].(string)
+			c.Violate("c10_runes:"+strings.ReplaceAll(id, " ", "_"), id+": "+ms[0], r, strings.Join(ms, "\n"))
+		}
+	})
+}
